@@ -457,3 +457,218 @@ Theorem C16_heap_conform_nonvacuous :
     PatchExact.doc_same (reify (h_str h') docT) e.
 Proof. exact py_stage6. Qed.
 Print Assumptions C16_heap_conform_nonvacuous.
+
+(** ------------------------------------------------------------------ 7. statuses 6 and 8 without any allocation failure *)
+From CJ Require Import PatchHeapDup PatchHeapDupTest PatchHeapDupLoop PatchHeapDupEx PatchHeapStatic PatchHeapStaticEx.
+
+(** The value-level duplicate fails exactly for a value with more than CJSON_CIRCULAR_LIMIT levels below it … *)
+Theorem C16_heap_dup_refused_iff : forall St t,
+  PatchDefs.cJSON_Duplicate (reify St t) = None <-> (Z.to_nat c_CJSON_CIRCULAR_LIMIT < CoreRefineDupForest.height t)%nat.
+Proof. exact dup_value_iff. Qed.
+
+(** … and on such a node of the forest the heap-level cJSON_Duplicate (never-failing allocator) returns NULL: what it
+    built has been released — links, node data, strings, liveness and the ledger are those of the heap before, only
+    the allocator's counters advanced; the invariant and [NoLeak] hold for the SAME forest. *)
+Theorem C16_heap_dup_refused : forall h F pp tp,
+  MInv h F -> Forest.find_tree pp F = Some tp -> (Z.to_nat c_CJSON_CIRCULAR_LIMIT < CoreRefineDupForest.height tp)%nat ->
+  exists h', cJSON_Duplicate nofail (Some pp) true h = Ret (None, h') /\
+    MInv h' F /\ (NoLeak h F -> NoLeak h' F) /\
+    h_lnk h' = h_lnk h /\ h_dat h' = h_dat h /\ h_str h' = h_str h /\ h_live h' = h_live h /\
+    lib_live h' = lib_live h /\ (h_next h <= h_next h')%positive.
+Proof. exact step_dup_refused. Qed.
+Print Assumptions C16_heap_dup_refused.
+
+(** STAGES 3 and 4 for EVERY status.  [C16_heap_apply_patch] without the side condition "st neither 6 nor 8": also when
+    the value-level model returns 8 (add / replace whose "value" is nested deeper than the limit) or 6 (copy of such a
+    source) the heap-level run returns the same status, the invariant holds, [reify docT] is the value-level document
+    — for replace the OLD VALUE IS ALREADY GONE (the model says so: the document returned with status 8 is the document
+    without the member) —, [G] is untouched and nothing leaks (the partial copy has been released). *)
+Theorem C16_heap_apply_patch_all : forall h G doc pid dpt cpt flag,
+  MInv h (G ++ [doc]) -> T pid dpt cpt ∈ nodes G ->
+  PatchDefs.decode_patch_operation (reify (h_str h) (T pid dpt cpt)) flag <> Ok PatchDefs.TEST ->
+  match PatchDefs.apply_patch (reify (h_str h) doc) (reify (h_str h) (T pid dpt cpt)) flag with
+  | Ok (st, doc', pt') =>
+      exists h' docT,
+        apply_patch nofail (Some (tid doc)) (Some pid) flag h = Ret (st, h') /\ MInv h' (G ++ [docT]) /\
+        tid docT = tid doc /\ reify (h_str h') docT = doc' /\ pt' = reify (h_str h) (T pid dpt cpt) /\
+        KeepO h h' G /\ (NoLeak h (G ++ [doc]) -> NoLeak h' (G ++ [docT])) /\ (h_next h <= h_next h')%positive
+  | _ => True
+  end.
+Proof. exact apply_patch_refines_all. Qed.
+Print Assumptions C16_heap_apply_patch_all.
+
+(** [value_keyed p cs]: when [p] is a [test] operation, its "value" member is keyed (the only part of an operation
+    object that compare_json sorts); [run_keyed]: [run_ok] without "no status is 6 or 8" and with [vkeyed p] weakened
+    to [value_keyed p] *)
+Theorem C16_heap_value_keyed_is : forall p cs,
+  value_keyed p cs <->
+  (PatchDefs.decode_patch_operation p cs = Ok PatchDefs.TEST ->
+   match CompareDefs.get_object_item p (Some PatchDefs.s_value) cs with Some (_, v) => vkeyed v | None => True end).
+Proof. exact (fun p cs => conj (fun H => H) (fun H => H)). Qed.
+Theorem C16_heap_run_keyed_is : forall object p r cs,
+  run_keyed object (p :: r) cs <->
+  vkeyed object /\ value_keyed p cs /\
+  match PatchDefs.apply_patch object p cs with
+  | Ok (st, o, _) => st = 0 -> run_keyed o r cs
+  | _ => False
+  end.
+Proof. exact (fun object p r cs => conj (fun H => H) (fun H => H)). Qed.
+Theorem C16_heap_run_ok_keyed : forall object ps cs, run_ok object ps cs -> run_keyed object ps cs.
+Proof. exact run_keyed_of_run_ok. Qed.
+
+(** one operation, whatever its opcode, whatever its status *)
+Theorem C16_heap_apply_patch_any_all : forall h A B doc rb ppt pid dpt cpt flag,
+  MInv h (F2 A B [] doc rb) -> subtree_t rb ppt = Some (T pid dpt cpt) ->
+  vkeyed (reify (h_str h) doc) -> value_keyed (reify (h_str h) (T pid dpt cpt)) flag ->
+  match PatchDefs.apply_patch (reify (h_str h) doc) (reify (h_str h) (T pid dpt cpt)) flag with
+  | Ok (st, doc', pt') =>
+      exists h' docT ptT,
+        apply_patch nofail (Some (tid doc)) (Some pid) flag h = Ret (st, h') /\ MInv h' (F2 A B [] docT (put_t rb ppt ptT)) /\
+        tid docT = tid doc /\ tid ptT = pid /\ tid <$> tchildren ptT = tid <$> cpt /\ tdata ptT = dpt /\
+        reify (h_str h') docT = doc' /\ reify (h_str h') ptT = pt' /\
+        (forall t, t ∈ nodes (A ++ rb :: B) -> reify (h_str h') t = reify (h_str h) t) /\ KeepO h h' (A ++ rb :: B) /\
+        (NoLeak h (F2 A B [] doc rb) -> NoLeak h' (F2 A B [] docT (put_t rb ppt ptT))) /\ (h_next h <= h_next h')%positive
+  | _ => True
+  end.
+Proof. exact apply_patch_any_all. Qed.
+Print Assumptions C16_heap_apply_patch_any_all.
+
+(** STAGE 6 for every status *)
+Theorem C16_heap_apply_patches_all : forall h A B doc rb ppa aid da elems flag,
+  MInv h (F2 A B [] doc rb) -> subtree_t rb ppa = Some (T aid da elems) ->
+  (Tree.is_array (reify (h_str h) (T aid da elems)) = true ->
+   run_keyed (reify (h_str h) doc) (map (reify (h_str h)) elems) flag) ->
+  match PatchDefs.apply_patches (reify (h_str h) doc) (reify (h_str h) (T aid da elems)) flag with
+  | Ok (st, doc', patches') =>
+      exists h' docT arrT,
+        apply_patches nofail (Some (tid doc)) (Some aid) flag h = Ret (st, h') /\
+        MInv h' (F2 A B [] docT (put_t rb ppa arrT)) /\ tid docT = tid doc /\ tid arrT = aid /\
+        reify (h_str h') docT = doc' /\ reify (h_str h') arrT = patches' /\
+        (NoLeak h (F2 A B [] doc rb) -> NoLeak h' (F2 A B [] docT (put_t rb ppa arrT))) /\ (h_next h <= h_next h')%positive
+  | _ => False
+  end.
+Proof. exact apply_patches_refines_all. Qed.
+Print Assumptions C16_heap_apply_patches_all.
+
+(** non-vacuity: document {"a":1,"d":D}, patch array [replace /a D; copy /d to /e; add "" D] with D nested 10002 arrays
+    deep (30 019 nodes).  The invariant of the concrete heap is established from checks on the FOREST; the
+    heap-level interpreter is not run: what it does follows from the theorems above and the value-level model, which
+    is evaluated: statuses 8, 6, 8; the refused replace has removed "a". *)
+Theorem C16_heap_deep_example_values :
+  pd_model 0 = Some (8, vobj None [pd_deep (Some [100])]) /\
+  pd_model 1 = Some (6, pd_doc_v) /\
+  pd_model 2 = Some (8, pd_doc_v) /\
+  PatchDefs.cJSON_Duplicate (pd_deep None) = None /\
+  match PatchDefs.cJSONUtils_ApplyPatchesCaseSensitive pd_doc_v pd_patches_v with
+  | Ok (st, d, _) => st = 8 /\ d = vobj None [pd_deep (Some [100])]
+  | _ => False
+  end.
+Proof. exact pd_values. Qed.
+Theorem C16_heap_deep_example_is :
+  MInv pd_heap (pd_G ++ [pd_doc]) /\ NoLeak pd_heap (pd_G ++ [pd_doc]) /\
+  length (Forest.ids (pd_G ++ [pd_doc])) = 30019%nat /\
+  (Z.to_nat c_CJSON_CIRCULAR_LIMIT < CoreRefineDupForest.height pd_doc)%nat /\
+  reify (h_str pd_heap) pd_doc = pd_doc_v /\ reify (h_str pd_heap) pd_patches = pd_patches_v /\
+  (forall k, (k < 3)%nat -> tchildren pd_patches !! k = Some (pd_el k)) /\
+  (forall k, (k < 3)%nat -> reify (h_str pd_heap) (pd_el k) = default pd_doc_v (pd_ops !! k)).
+Proof.
+  exact (conj pd_MInv (conj pd_NoLeak (conj (proj1 pd_size) (conj (proj2 pd_size) (conj (proj1 pd_reify) (conj (proj2 pd_reify)
+    (conj (proj1 pd_els) (proj2 (proj2 pd_els))))))))).
+Qed.
+Theorem C16_heap_statuses_8_6_observed :
+  (exists h' docT, apply_patch nofail (Some (tid pd_doc)) (Some (tid (pd_el 0))) true pd_heap = Ret (8, h') /\
+     MInv h' (pd_G ++ [docT]) /\ NoLeak h' (pd_G ++ [docT]) /\ reify (h_str h') docT = vobj None [pd_deep (Some [100])]) /\
+  (exists h' docT, apply_patch nofail (Some (tid pd_doc)) (Some (tid (pd_el 1))) true pd_heap = Ret (6, h') /\
+     MInv h' (pd_G ++ [docT]) /\ NoLeak h' (pd_G ++ [docT]) /\ reify (h_str h') docT = pd_doc_v) /\
+  (exists h' docT, apply_patch nofail (Some (tid pd_doc)) (Some (tid (pd_el 2))) true pd_heap = Ret (8, h') /\
+     MInv h' (pd_G ++ [docT]) /\ NoLeak h' (pd_G ++ [docT]) /\ reify (h_str h') docT = pd_doc_v).
+Proof. exact pd_observed. Qed.
+Print Assumptions C16_heap_statuses_8_6_observed.
+Theorem C16_heap_entry_status_8_observed :
+  run_keyed pd_doc_v pd_ops true /\
+  exists h' docT arrT,
+    cJSONUtils_ApplyPatchesCaseSensitive nofail (Some (tid pd_doc)) (Some (tid pd_patches)) pd_heap = Ret (8, h') /\
+    MInv h' (F2 [] [] [] docT (put_t pd_patches [] arrT)) /\ NoLeak h' (F2 [] [] [] docT (put_t pd_patches [] arrT)) /\
+    reify (h_str h') docT = vobj None [pd_deep (Some [100])].
+Proof. exact pd_entry. Qed.
+Print Assumptions C16_heap_entry_status_8_observed.
+
+(** ------------------------------------------------------------------ 8. the run condition is derived *)
+
+(** a well-formed document is keyed; the "value" member of a [test] operation with a well-formed operand is keyed *)
+Theorem C16_heap_dwf_vkeyed : forall n, PatchConform.dwf n -> vkeyed n.
+Proof. exact dwf_vkeyed. Qed.
+Theorem C16_heap_value_keyed_of_op : forall p o,
+  PatchSeq2Op.op_wf2 p -> Rfc6902.op_of p = Some o -> PatchMove.op_values_ok o -> value_keyed p true.
+Proof. exact value_keyed_of_op. Qed.
+
+(** under the hypotheses of the value-level sequence theorem (Properties_C16.C16_conform) the run condition holds *)
+Theorem C16_heap_run_keyed_derived : forall doc patches ops,
+  PatchConform.dwf doc -> Rfc6902.ops_of patches = Some ops -> Forall PatchSeq2Op.op_wf2 (Tree.n_children patches) ->
+  Forall PatchSeqAll.op_good ops -> PatchSeqAll.fits doc ops ->
+  run_keyed doc (Tree.n_children patches) true.
+Proof. exact run_keyed_conform. Qed.
+Print Assumptions C16_heap_run_keyed_derived.
+
+(** COROLLARY.  [C16_heap_conform] WITHOUT the run condition: the hypotheses of Properties_C16.C16_conform on the reified
+    document and patch array, and the invariant — nothing about the run. *)
+Theorem C16_heap_conform_all : forall h A B doc rb ppa aid da elems ops,
+  MInv h (F2 A B [] doc rb) -> subtree_t rb ppa = Some (T aid da elems) ->
+  let vdoc := reify (h_str h) doc in
+  let vpatches := reify (h_str h) (T aid da elems) in
+  PatchConform.dwf vdoc -> Rfc6902.ops_of vpatches = Some ops -> Forall PatchSeq2Op.op_wf2 (Tree.n_children vpatches) ->
+  Forall PatchSeqAll.op_good ops -> PatchSeqAll.fits vdoc ops ->
+  exists st h' docT arrT,
+    cJSONUtils_ApplyPatchesCaseSensitive nofail (Some (tid doc)) (Some aid) h = Ret (st, h') /\
+    MInv h' (F2 A B [] docT (put_t rb ppa arrT)) /\ tid docT = tid doc /\ tid arrT = aid /\
+    (NoLeak h (F2 A B [] doc rb) -> NoLeak h' (F2 A B [] docT (put_t rb ppa arrT))) /\
+    match Rfc6902.eval vdoc ops with
+    | Some d' => st = 0 /\ PatchExact.doc_same (reify (h_str h') docT) d' /\ Rfc6902.doc_eq (reify (h_str h') docT) d' /\
+                 PatchConform.dwf (reify (h_str h') docT)
+    | None => st <> 0
+    end.
+Proof. exact c16_heap_conform_fits. Qed.
+Print Assumptions C16_heap_conform_all.
+
+(** … and with the STATIC hypotheses of Properties_C16.C16_conform_static: they look at the initial document and the
+    patch only (well-formed document; patch array read by RFC 6902 as [ops]; members of the operation objects named by C
+    strings, their String-typed members C strings of unsigned chars; well-formed duplicable "value" operands; no removal
+    of the whole document; widths + number of operations within SIZE_MAX; depth budget within CJSON_CIRCULAR_LIMIT). *)
+Theorem C16_heap_conform_static : forall h A B doc rb ppa aid da elems ops,
+  MInv h (F2 A B [] doc rb) -> subtree_t rb ppa = Some (T aid da elems) ->
+  let vdoc := reify (h_str h) doc in
+  let vpatches := reify (h_str h) (T aid da elems) in
+  PatchConform.dwf vdoc -> Rfc6902.ops_of vpatches = Some ops ->
+  Forall PatchSeq2Op.op_wf2 (Tree.n_children vpatches) -> Forall PatchSeq2Fit.op_cstr (Tree.n_children vpatches) ->
+  Forall PatchMove.op_values_ok ops -> ~ In (Rfc6902.Remove []) ops ->
+  Z.of_nat (Nat.max (PatchSeq2Fit.width vdoc) (PatchSeq2Fit.opsw ops) + length ops) <= PointerDefs.SIZE_MAX ->
+  Z.of_nat (PatchSeq2Fit.dbound (Tree.node_depth vdoc) ops) <= c_CJSON_CIRCULAR_LIMIT ->
+  exists st h' docT arrT,
+    cJSONUtils_ApplyPatchesCaseSensitive nofail (Some (tid doc)) (Some aid) h = Ret (st, h') /\
+    MInv h' (F2 A B [] docT (put_t rb ppa arrT)) /\ tid docT = tid doc /\ tid arrT = aid /\
+    (NoLeak h (F2 A B [] doc rb) -> NoLeak h' (F2 A B [] docT (put_t rb ppa arrT))) /\
+    match Rfc6902.eval vdoc ops with
+    | Some d' => st = 0 /\ PatchExact.doc_same (reify (h_str h') docT) d' /\ Rfc6902.doc_eq (reify (h_str h') docT) d' /\
+                 PatchConform.dwf (reify (h_str h') docT)
+    | None => st <> 0
+    end.
+Proof. exact c16_heap_conform_static. Qed.
+Print Assumptions C16_heap_conform_static.
+
+(** non-vacuity: the static hypotheses hold on the five-operation heap of section 6, and the conclusion there *)
+Theorem C16_heap_conform_static_nonvacuous :
+  let vdoc := reify (h_str py_heap) py_doc in
+  let vpatches := reify (h_str py_heap) py_patches in
+  MInv py_heap py_F /\ NoLeak py_heap py_F /\
+  PatchConform.dwf vdoc /\ Rfc6902.ops_of vpatches = Some PatchSeqAll.y_ops /\
+  Forall PatchSeq2Op.op_wf2 (Tree.n_children vpatches) /\ Forall PatchSeq2Fit.op_cstr (Tree.n_children vpatches) /\
+  Forall PatchMove.op_values_ok PatchSeqAll.y_ops /\ ~ In (Rfc6902.Remove []) PatchSeqAll.y_ops /\
+  Z.of_nat (Nat.max (PatchSeq2Fit.width vdoc) (PatchSeq2Fit.opsw PatchSeqAll.y_ops) + length PatchSeqAll.y_ops) <= PointerDefs.SIZE_MAX /\
+  Z.of_nat (PatchSeq2Fit.dbound (Tree.node_depth vdoc) PatchSeqAll.y_ops) <= c_CJSON_CIRCULAR_LIMIT /\
+  exists e h' docT arrT,
+    Rfc6902.eval vdoc PatchSeqAll.y_ops = Some e /\
+    cJSONUtils_ApplyPatchesCaseSensitive nofail (Some (tid py_doc)) (Some (tid py_patches)) py_heap = Ret (0, h') /\
+    MInv h' (F2 [] [py_bad] [] docT (put_t py_patches [] arrT)) /\ NoLeak h' (F2 [] [py_bad] [] docT (put_t py_patches [] arrT)) /\
+    PatchExact.doc_same (reify (h_str h') docT) e.
+Proof. exact py_static. Qed.
+Print Assumptions C16_heap_conform_static_nonvacuous.
